@@ -5,8 +5,61 @@ package io
 
 //@ -- ------------------------------------------------------------------ Writer
 //@ spec (this *Writer) flags01() = (this.closed == 0 || this.closed == 1) && (this.closing == 0 || this.closing == 1) && (this.finalized == 0 || this.finalized == 1) && (this.initialized == 0 || this.initialized == 1)
-//@ spec (this *Writer) repW() = this.obs != nil && 1024 <= this.blockSize && this.blockSize <= 1073741824 && this.blockSize % 16 == 0 && 1 <= this.jobs && this.jobs <= 64 && len(this.buffers) == 2*this.jobs && 0 <= this.available && this.available <= this.jobs*this.blockSize && 0 <= this.nbInputBlocks && this.nbInputBlocks <= 63 && this.flags01() && (this.finalized == 1 ==> this.available == 0 && this.closing == 1) && 0 - 1 <= this.blockID
+//@ spec (this *Writer) repW() = this.obs != nil && 1024 <= this.blockSize && this.blockSize <= 1073741824 && this.blockSize % 16 == 0 && 1 <= this.jobs && this.jobs <= 64 && len(this.buffers) == 2*this.jobs && 0 <= this.available && this.available <= this.jobs*this.blockSize && this.nbInputBlocks <= 63 && this.flags01() && (this.finalized == 1 ==> this.available == 0 && this.closing == 1) && 0 - 1 <= this.blockID
 //@ spec (this *Writer) buffersOK() = forall k :: 0 <= k && k < this.jobs ==> (len(this.buffers[k].Buf) == 0 || len(this.buffers[k].Buf) >= this.blockSize) && (k*this.blockSize <= this.available ==> len(this.buffers[k].Buf) >= this.blockSize)
+
+//@ -- ------------------------------------------------------------------ context accessors and constructors
+//@ func getCtxString
+//@   mode int
+//@   props C01 C15 C17
+//@   ensures !has(ctx, key) && required ==> result1 != nil                                          #missing-required
+//@   ensures !has(ctx, key) && !required ==> result1 == nil
+//@   ensures has(ctx, key) && istype(ctx[key], "string") ==> result1 == nil && result0 == unbox(ctx[key], "string")   #value
+//@   ensures has(ctx, key) && !istype(ctx[key], "string") ==> result1 != nil                        #wrong-type
+//@   modifies nothing
+
+//@ func getCtxUint
+//@   mode int
+//@   props C01 C17
+//@   ensures !has(ctx, key) && required ==> result1 != nil                                          #missing-required
+//@   ensures !has(ctx, key) && !required ==> result1 == nil && result0 == defaultValue
+//@   ensures has(ctx, key) && istype(ctx[key], "uint") ==> result1 == nil && result0 == unbox(ctx[key], "uint")       #value
+//@   ensures has(ctx, key) && !istype(ctx[key], "uint") ==> result1 != nil                          #wrong-type
+//@   modifies nothing
+
+//@ func getCtxBool
+//@   mode int
+//@   props C01 C17
+//@   ensures !has(ctx, key) && required ==> result1 != nil                                          #missing-required
+//@   ensures !has(ctx, key) && !required ==> result1 == nil && result0 == defaultValue
+//@   ensures has(ctx, key) && istype(ctx[key], "bool") ==> result1 == nil && result0 == unbox(ctx[key], "bool")       #value
+//@   ensures has(ctx, key) && !istype(ctx[key], "bool") ==> result1 != nil                          #wrong-type
+//@   modifies nothing
+
+//@ func getCtxInt64
+//@   mode int
+//@   props C01 C17
+//@   ensures !has(ctx, key) && required ==> result1 != nil                                          #missing-required
+//@   ensures !has(ctx, key) && !required ==> result1 == nil && result0 == defaultValue
+//@   ensures has(ctx, key) && istype(ctx[key], "int64") ==> result1 == nil && result0 == unbox(ctx[key], "int64")     #value
+//@   ensures has(ctx, key) && !istype(ctx[key], "int64") ==> result1 != nil                         #wrong-type
+//@   modifies nothing
+
+//@ func createWriterWithCtx
+//@   mode int
+//@   props C01 C15 C17
+//@   ensures result1 != nil ==> result0 == nil                                                      #no-writer-on-error
+//@   ensures result1 == nil ==> result0 != nil && fresh(result0) && result0.repW() && result0.buffersOK()             #rep-established
+//@   ensures result1 == nil ==> result0.closed == 0 && result0.closing == 0 && result0.finalized == 0 && result0.initialized == 0 && result0.available == 0 && result0.blockID == 0 && result0.obs == obs    #initial-state
+//@   ensures result1 == nil ==> 0 <= result0.inputSize                                              #size-hint-not-negative
+//@   ensures result1 == nil ==> has(ctx, "entropy") && istype(ctx["entropy"], "string") && unbox(ctx["entropy"], "string") == ename(result0.entropyType) && evalid(result0.entropyType)     #canonical-entropy-name
+//@   ensures result1 == nil ==> has(ctx, "transform") && istype(ctx["transform"], "string") && unbox(ctx["transform"], "string") == tchain(result0.transformType)                           #canonical-transform-name
+//@   ensures result1 == nil ==> has(ctx, "bsVersion") && istype(ctx["bsVersion"], "uint") && unbox(ctx["bsVersion"], "uint") == 6      #version-in-ctx
+//@   modifies ctx[*]
+//@   loop 1 invariant 1 <= i && i <= this.jobs && this.jobs == tasks && len(this.buffers) == 2*this.jobs && len(this.buffers[0].Buf) >= this.blockSize
+//@   loop 1 invariant forall k :: 1 <= k && k < i ==> len(this.buffers[k].Buf) == 0
+//@   loop 1 modifies this.buffers[*]
+//@   loop 1 decreases this.jobs - i
 
 //@ func (*encodingTask) encode
 //@   mode int
@@ -129,6 +182,29 @@ package io
 //@ spec (this *Reader) repR() = this.repR0() && 1024 <= this.blockSize && this.blockSize <= 1073741824 && this.bufferThreshold == this.blockSize && 1 <= this.jobs && this.jobs <= 64 && len(this.buffers) == 2*this.jobs && 0 <= this.available && 0 <= this.consumed && this.consumed + this.available <= this.jobs*this.blockSize && 0 <= this.nbInputBlocks && this.nbInputBlocks <= 63 && 0 - 1 <= this.blockID && this.ctx != nil
 //@ spec (this *Reader) filledOK() = forall k :: 0 <= k && k < this.jobs && k*this.blockSize < this.consumed + this.available ==> len(this.buffers[k].Buf) >= this.blockSize
 
+//@ func (*Reader) validateHeaderless
+//@   mode int
+//@   props C01 C15 C17
+//@   requires this.repR0() && this.available == 0 && this.consumed == 0
+//@   ensures result == nil ==> this.repR0() && 1024 <= this.blockSize && this.blockSize <= 1073741824 && this.bufferThreshold == this.blockSize && this.available == 0 && this.consumed == 0     #rep-established
+//@   ensures result == nil ==> has(this.ctx, "bsVersion") && istype(this.ctx["bsVersion"], "uint") && unbox(this.ctx["bsVersion"], "uint") <= 6       #version-in-ctx
+//@   ensures result == nil ==> has(this.ctx, "entropy") && istype(this.ctx["entropy"], "string") && unbox(this.ctx["entropy"], "string") == ename(this.entropyType) && evalid(this.entropyType)     #canonical-entropy-name
+//@   ensures result == nil ==> has(this.ctx, "transform") && istype(this.ctx["transform"], "string") && unbox(this.ctx["transform"], "string") == tchain(this.transformType)                       #canonical-transform-name
+//@   ensures (has(this.ctx, "from") ==> istype(this.ctx["from"], "int")) <==> old(has(this.ctx, "from") ==> istype(this.ctx["from"], "int"))
+//@   ensures (has(this.ctx, "to") ==> istype(this.ctx["to"], "int")) <==> old(has(this.ctx, "to") ==> istype(this.ctx["to"], "int"))
+//@   modifies this.ctx[*], this.entropyType, this.transformType, this.blockSize, this.bufferThreshold, this.hasher32, this.hasher64, this.outputSize, this.nbInputBlocks
+
+//@ func createReaderWithCtx
+//@   mode int
+//@   props C01 C15 C17
+//@   ensures result1 != nil ==> result0 == nil                                                      #no-reader-on-error
+//@   ensures result1 == nil ==> result0 != nil && fresh(result0) && result0.repR0() && result0.ibs == ibs && result0.closed == 0 && result0.initialized == 0 && result0.available == 0 && result0.consumed == 0 && result0.blockID == 0     #rep-established
+//@   ensures result1 == nil && result0.headless ==> result0.repR() && result0.filledOK()            #headerless-ready
+//@   ensures result1 == nil ==> (has(result0.ctx, "from") ==> istype(result0.ctx["from"], "int")) && (has(result0.ctx, "to") ==> istype(result0.ctx["to"], "int"))     #range-options-typed
+//@   modifies ctx[*]
+//@   loop 1 invariant 0 - 1 <= rangeindex && rangeindex <= len(this.buffers) && len(this.buffers) == 2*this.jobs && this.jobs == tasks
+//@   loop 1 modifies this.buffers[*]
+
 //@ func (*decodingTask) decode
 //@   mode int
 //@   props C02 C03 C05 C07 C08 C09 C11
@@ -231,7 +307,7 @@ package io
 
 //@ func (*Reader) readHeader
 //@   mode int
-//@   props C01 C03 C08 C09 C10
+//@   props C01 C03 C08 C09 C10 C15
 //@   opt calls may-panic
 //@   opt panics caught
 //@   requires this.repR0()
@@ -240,6 +316,9 @@ package io
 //@   ensures err != nil ==> this.initialized == 0                                 #retry-after-failure
 //@   ensures this.repR0()                                                         #rep0
 //@   ensures err == nil && !this.headless && old(this.initialized) == 0 ==> 1024 <= this.blockSize && this.blockSize <= 1073741824 && this.blockSize % 16 == 0 && this.bufferThreshold == this.blockSize && 0 <= this.nbInputBlocks && this.nbInputBlocks <= 63     #validated-fields
+//@   ensures err == nil && !this.headless && old(this.initialized) == 0 ==> has(this.ctx, "entropy") && istype(this.ctx["entropy"], "string") && unbox(this.ctx["entropy"], "string") == ename(this.entropyType) && evalid(this.entropyType)     #canonical-entropy-name
+//@   ensures err == nil && !this.headless && old(this.initialized) == 0 ==> has(this.ctx, "transform") && istype(this.ctx["transform"], "string") && unbox(this.ctx["transform"], "string") == tchain(this.transformType)                        #canonical-transform-name
+//@   ensures err == nil && !this.headless && old(this.initialized) == 0 ==> has(this.ctx, "bsVersion") && istype(this.ctx["bsVersion"], "uint") && unbox(this.ctx["bsVersion"], "uint") <= 6                                                  #version-in-ctx
 //@   ensures has(this.ctx, "from") <==> old(has(this.ctx, "from"))
 //@   ensures has(this.ctx, "to") <==> old(has(this.ctx, "to"))
 //@   ensures has(this.ctx, "from") ==> this.ctx["from"] == old(this.ctx["from"])
